@@ -469,7 +469,26 @@ func treeGen(seed int64, n int, args []string, out *json.Encoder) {
 			}
 			c.H = append(c.H, hEntry{M: m, R: rt, Ok: true, Hdr: []hdrC{}, Call: call})
 			rgs = append(rgs, rg)
-			if kind == "hdr" && rng.Intn(8) == 0 && m == "GET" {
+			if n := len(rt.Segs); kind == "hdr" && rng.Intn(9) == 0 && n >= 2 && rt.Segs[n-1].K == "S" && !rt.Segs[n-1].Opt && rt.Gram {
+				// a multi-method registration that is rejected PART-WAY and what comes after it: POST has the short form, so
+				// Any(<route with its last segment optional>) fails at POST (GET and HEAD are in by then, the rest was never
+				// tried); the same route is then registered for later methods one by one, which must be accepted
+				short, opt := rt, rt
+				short.Segs = append([]aSeg{}, rt.Segs[:n-1]...)
+				opt.Segs = append([]aSeg{}, rt.Segs...)
+				opt.Segs[n-1].Opt = true
+				c.H[len(c.H)-1] = hEntry{M: "POST", R: short, Ok: true, Hdr: []hdrC{}, Call: call}
+				call++
+				for _, m2 := range nineMethods {
+					c.H = append(c.H, hEntry{M: m2, R: opt, Ok: true, Hdr: []hdrC{}, Call: call, Ck: "any"})
+					rgs = append(rgs, rg)
+				}
+				for _, m2 := range []string{"PUT", "DELETE", "TRACE"}[:1+rng.Intn(3)] {
+					call++
+					c.H = append(c.H, hEntry{M: m2, R: opt, Ok: true, Hdr: []hdrC{}, Call: call})
+					rgs = append(rgs, rg)
+				}
+			} else if kind == "hdr" && rng.Intn(8) == 0 && m == "GET" {
 				// the same route for all nine methods through ONE Any() call (the handle holds nine leaves)
 				c.H[len(c.H)-1].Ck = "any"
 				for _, m2 := range nineMethods[1:] {
